@@ -56,13 +56,18 @@ mod verif_c14_local_cids {
 
     // On the error paths the id table must not be touched at all.  Instead of letting CBMC encode the whole
     // mutation path (VecDeque of 38-byte records indexed by a symbolic number: 22 GB and no answer), the table
-    // accessors are replaced by stubs that FAIL the proof when reached -- an assertion, not an assumption.
-    fn unreachable_get_mut<T, const LIMIT: u64>(_d: &mut IndexDeque<T, LIMIT>, _idx: u64) -> Option<&mut T> {
-        assert!(false, "C04.local_cid.error_path.table_not_read");
+    // accessors are replaced by stubs that only RECORD that they were reached; the contracts assert the flag is
+    // still clear (an assertion of unreachability, not an assumption).
+    static TOUCHED: core::sync::atomic::AtomicBool = core::sync::atomic::AtomicBool::new(false);
+    fn touched() -> bool {
+        TOUCHED.load(core::sync::atomic::Ordering::Relaxed)
+    }
+    fn recording_get_mut<T, const LIMIT: u64>(_d: &mut IndexDeque<T, LIMIT>, _idx: u64) -> Option<&mut T> {
+        TOUCHED.store(true, core::sync::atomic::Ordering::Relaxed);
         None
     }
-    fn unreachable_push_back<T, const LIMIT: u64>(_d: &mut IndexDeque<T, LIMIT>, _v: T) -> Result<u64, crate::util::IndexError> {
-        assert!(false, "C04.local_cid.error_path.table_not_written");
+    fn recording_push_back<T, const LIMIT: u64>(_d: &mut IndexDeque<T, LIMIT>, _v: T) -> Result<u64, crate::util::IndexError> {
+        TOUCHED.store(true, core::sync::atomic::Ordering::Relaxed);
         Ok(0)
     }
 
@@ -94,29 +99,47 @@ mod verif_c14_local_cids {
         n
     }
 
-    /// "rejects retirement of a number it never issued": every seq >= the next number to issue is an
-    /// error and nothing happens (no id generated, no frame, nothing retired, table unchanged).
+    /// RETIRE_CONNECTION_ID for any seq >= the next number to issue, on a table whose earlier ids are rotated
+    /// away (the error path reads only offset + len).  Returns (is_err, issued-before, state after).
+    fn run_retire_unissued() -> (bool, u64, u64, LocalCids<Probe>) {
+        let first: u64 = kani::any();
+        let seq: u64 = kani::any();
+        kani::assume(first < VARINT_MAX - 2 && seq <= VARINT_MAX);
+        let mut lc = local(first, 0, Some(2));
+        let issued = lc.cid_deque.largest();
+        kani::assume(seq >= issued);
+        let r = lc.recv_retire_cid_frame(frame(seq));
+        kani::cover!(seq == issued, "C14.local.retire.reach_exactly_next");
+        (r.is_err(), issued, first, lc)
+    }
+
+    /// "rejects retirement of a number it never issued": every seq >= the next number to issue is an error
     #[kani::proof]
     #[kani::unwind(4)]
     #[kani::stub(crate::token::ResetToken::random_gen, stub_token)] // rand's thread-local rng crashes the Kani compiler even when only statically reachable
     #[kani::stub(alloc::fmt::format, stub_format)]
-    #[kani::stub(crate::util::IndexDeque::get_mut, unreachable_get_mut)]
-    #[kani::stub(crate::util::IndexDeque::push_back, unreachable_push_back)]
+    #[kani::stub(crate::util::IndexDeque::get_mut, recording_get_mut)]
+    #[kani::stub(crate::util::IndexDeque::push_back, recording_push_back)]
     fn retire_unissued_contract() {
-        let first: u64 = kani::any();
-        let n: usize = kani::any();
-        let seq: u64 = kani::any();
-        kani::assume(n == 0 && first < VARINT_MAX - 2 && seq <= VARINT_MAX); // earlier ids rotated away: the error path reads only offset + len
-        let mut lc = local(first, n, Some(2));
-        let issued = lc.cid_deque.largest();
-        kani::assume(seq >= issued);
-        let r = lc.recv_retire_cid_frame(frame(seq));
-        assert!(r.is_err(), "C14.local.retire.unissued_seq_rejected");
-        assert!(lc.cid_deque.largest() == issued && lc.cid_deque.offset() == first && lc.cid_deque.len() == n, "C14.local.retire.unissued_table_unchanged");
+        let (is_err, issued, first, lc) = run_retire_unissued();
+        assert!(is_err, "C14.local.retire.unissued_seq_rejected");
+        assert!(lc.cid_deque.largest() == issued && lc.cid_deque.offset() == first && lc.cid_deque.len() == 0, "C14.local.retire.unissued_table_unchanged");
+        core::mem::forget(lc); // Drop = clear(): retires every id (contract `clear_contract`)
+    }
+
+    /// ... and is not acted on: the table is not even looked at, no id generated, no frame, nothing retired
+    #[kani::proof]
+    #[kani::unwind(4)]
+    #[kani::stub(crate::token::ResetToken::random_gen, stub_token)]
+    #[kani::stub(alloc::fmt::format, stub_format)]
+    #[kani::stub(crate::util::IndexDeque::get_mut, recording_get_mut)]
+    #[kani::stub(crate::util::IndexDeque::push_back, recording_push_back)]
+    fn retire_unissued_not_acted_on() {
+        let (_is_err, _issued, _first, lc) = run_retire_unissued();
+        assert!(!touched(), "C04.local_cid.retire.unissued_table_not_touched");
         let p = &lc.issued_cids;
         assert!(p.generated.get() == 0 && p.frames.get() == 0 && p.retired.get() == 0, "C04.local_cid.retire.unissued_not_acted_on");
-        kani::cover!(seq == issued, "C14.local.retire.reach_exactly_next");
-        core::mem::forget(lc); // Drop = clear(): retires every id (contract `clear_contract`)
+        core::mem::forget(lc);
     }
 
     /// FINDING (confined): RFC 9000 §19.16 prescribes PROTOCOL_VIOLATION for a RETIRE_CONNECTION_ID whose
@@ -179,22 +202,39 @@ mod verif_c14_local_cids {
         retire_issued(1);
     }
 
-    /// set_limit, error path (complete): a peer limit below 2 is a TRANSPORT_PARAMETER_ERROR and nothing is issued.
-    #[kani::proof]
-    #[kani::unwind(4)]
-    #[kani::stub(crate::token::ResetToken::random_gen, stub_token)]
-    #[kani::stub(alloc::fmt::format, stub_format)]
-    #[kani::stub(crate::util::IndexDeque::push_back, unreachable_push_back)]
-    fn set_limit_below_2_contract() {
+    fn run_set_limit_below_2() -> (Result<(), Error>, u64, LocalCids<Probe>) {
         let limit: u64 = kani::any();
         let first: u64 = kani::any();
         kani::assume(limit < 2 && first < VARINT_MAX - 2);
         let mut lc = local(first, 0, None);
         let r = lc.set_limit(limit);
-        assert!(matches!(r.as_ref().map_err(|e| e.kind()), Err(ErrorKind::TransportParameter)), "C14.local.set_limit.below_2_is_transport_parameter_error");
-        let p = &lc.issued_cids;
-        assert!(p.generated.get() == 0 && p.frames.get() == 0 && lc.cid_deque.largest() == first && lc.active_cid_limit.is_none(), "C14.local.set_limit.error_not_acted_on");
         kani::cover!(limit == 1, "C14.local.set_limit.reach_error");
+        (r, first, lc)
+    }
+
+    /// set_limit, error path (complete): a peer limit below 2 is a TRANSPORT_PARAMETER_ERROR
+    #[kani::proof]
+    #[kani::unwind(4)]
+    #[kani::stub(crate::token::ResetToken::random_gen, stub_token)]
+    #[kani::stub(alloc::fmt::format, stub_format)]
+    #[kani::stub(crate::util::IndexDeque::push_back, recording_push_back)]
+    fn set_limit_below_2_contract() {
+        let (r, first, lc) = run_set_limit_below_2();
+        assert!(matches!(r.as_ref().map_err(|e| e.kind()), Err(ErrorKind::TransportParameter)), "C14.local.set_limit.below_2_is_transport_parameter_error");
+        assert!(lc.cid_deque.largest() == first && lc.active_cid_limit.is_none(), "C14.local.set_limit.error_leaves_state");
+        core::mem::forget(lc);
+    }
+
+    /// ... and nothing is issued
+    #[kani::proof]
+    #[kani::unwind(4)]
+    #[kani::stub(crate::token::ResetToken::random_gen, stub_token)]
+    #[kani::stub(alloc::fmt::format, stub_format)]
+    #[kani::stub(crate::util::IndexDeque::push_back, recording_push_back)]
+    fn set_limit_below_2_not_acted_on() {
+        let (_r, _first, lc) = run_set_limit_below_2();
+        let p = &lc.issued_cids;
+        assert!(!touched() && p.generated.get() == 0 && p.frames.get() == 0, "C04.local_cid.set_limit.rejected_not_acted_on");
         core::mem::forget(lc);
     }
 
